@@ -428,7 +428,14 @@ def apply_delta(key, delta, data):
     # Assimilate new data
     if getattr(delta, 'added', False):
         if key != WORKFLOW:
-            data[key].update({e.id: e for e in delta.added})
+            # Store copies of the added elements: the delta is published after
+            # it is applied here, and updates merged into the stored elements
+            # must not leak into the published "added" elements (a subscriber
+            # would apply the same updates a second time).
+            data[key].update({
+                e.id: reset_protobuf_object(MESSAGE_MAP[key], e)
+                for e in delta.added
+            })
         elif delta.added.ListFields():
             data[key].CopyFrom(delta.added)
 
